@@ -118,7 +118,8 @@ CHECKS = {
        "C07_async_window_rejected_frame_is_timeout (an RX1/RX2 window of async_device that hears a rejected frame = the window timing out: same device, same radio calls, same "
        "outcome, for every device state and the rest of any script), C07_async_rxc_rejected_frame_is_skipped (Class C reception: costs one rx call, nothing else), "
        "C07_nb_rejected_frame_keeps_the_window_open (nb_device: RxDone with a rejected frame = the radio still receiving: same state, MAC, response NoUpdate); tied to the code by "
-       "the front-end correspondence and by twin runs through the real async_device / nb_device (rejected frame vs nothing heard in the same window).",
+       "the front-end correspondence and by twin runs through the real async_device / nb_device (rejected frame vs nothing heard in the same window; Class C: rejected frames heard "
+       "while listening between the Class A windows vs nothing heard -- windows, timer calls and every later response identical).",
   note=COMMON_NOTE + "'Rejected' is spec_accepts of Spec/L2Frame.v (size + reference MIC for the fresh counter), as C05 states acceptance: the stack does not compare the frame's DevAddr with "
        "the session's (the MIC covers the frame's own address), so a frame bearing another address but authentic under this session's NwkSKey is ACCEPTED by code, model and reference alike; "
        "such a frame is not in the rejected classes.",
@@ -233,7 +234,13 @@ CHECKS = {
   text="Coq theorems: every driver's LDRO decision and the bit programmed into the chip equal the airtime calculator's, and that "
        "decision is 'on' exactly when 2^SF*10^6 >= 16384*BW (exact arithmetic) for all SF 5..12 x all 10 bandwidths. The models are "
        "tied to the code exhaustively: all 80 pairs x 6 chip variants (SX1261, SX1262, STM32WL, SX1276, SX1272, LR1110) x frequencies on both "
-       "sides of the 400 MHz rule x prior register contents, through create_modulation_params + set_modulation_params on a recording SPI bus.",
+       "sides of the 400 MHz rule x prior register contents, through create_modulation_params + set_modulation_params on a recording SPI bus. "
+       "Register level (SX127x, where the bit shares a register with other fields): C15_sx1272_modulation_writes_ldro / C15_sx1272_packet_params_keep_ldro / "
+       "C15_sx1272_ldro_survives_prepare / C15_sx1276_modulation_writes_ldro -- the read-modify-write functions the modelled set_modulation_params / set_packet_params apply "
+       "(Model/Sx127x.v mod_c1_1272, pkt_c1_1272, mod_c3_1276) put exactly the decision into RegModemConfig1 bit 0 / RegModemConfig3 bit 3 and no later packet-parameter write disturbs it, "
+       "for every register content and flag combination; tied to the code by running set_modulation_params / set_packet_params sequences (both orders, every header / CRC / IQ "
+       "combination, every supported SF x BW, all-zero / all-one / random prior registers) on both chips, model against driver at pin level and by register file, the bit read back "
+       "from the emulated registers and compared with the 16.384 ms rule.",
   note=COMMON_NOTE + "The domain is finite and enumerated completely by the correspondence run on every tier.",
   tech="machine-checked proof in Coq + exhaustive model/implementation correspondence over the finite (chip,SF,BW) domain", ref="6 C15"),
  "C16": dict(
